@@ -18,7 +18,7 @@ T = z3.BoolVal(True)
 
 class ThreadLockModel(SemModel):
     """threading.Lock: acquire/release plus the context-manager protocol as primitives."""
-    METHODS = dict(SemModel.METHODS, __enter__=[], __exit__=["ValueError"])
+    METHODS = dict(SemModel.METHODS, __enter__=[], __exit__=["ValueError", "AssertionError"])
 
     def result_type(self, method):
         return {"__enter__": "bool", "__exit__": None}.get(method) if method in ("__enter__", "__exit__") \
@@ -203,7 +203,7 @@ class ExecSlice:
         O["shutdown_lock"] = {"model": ThreadLockModel("shutdown_lock", SEMAPHORE, 1, 1, 1, S)}
         self.mgmt = make_semlock_obj(O, self.ct, S, "mgmt", "Lock", 1)
         # wakeup pipe
-        self.wpipe = PipeState("wakeup.pipe", S, wakeup_cap)
+        self.wpipe = PipeState("wakeup.pipe", S, wakeup_cap, init_count=None)  # symbolic: wake-ups may already be queued
         O["wakeup.r"] = {"model": ConnModel(self.wpipe)}
         O["wakeup.w"] = {"model": ConnModel(self.wpipe)}
         O["wakeup"] = {"cls": "_ThreadWakeup", "model": FieldsModel("wakeup", S, {"_closed": ("bool", False)}, fused_reads=["_closed"]),
@@ -350,6 +350,7 @@ class ExecSlice:
         import struct
         return {"Msg": msg,
                 "CallItem": lambda w, f: pe._CallItem(int(f["i"]), len, (), {}),
+                "Ref:bpe": lambda w, f: pe.BrokenProcessPool("the stored broken-pool error"),
                 "Err": lambda w, f: struct.error("too large") if f["big"] else ValueError("cannot pickle")}
 
     @property
